@@ -630,3 +630,18 @@ func TestD32_JSONBigInteger(t *testing.T) {
 		t.Fatalf("9007199254740993 was stored as %d without an issue", d.N)
 	}
 }
+
+// D33: zhttp.Request on a JSON request built without a body panicked inside Parse
+func TestD33_RequestWithoutBody(t *testing.T) {
+	type D struct{ Name string }
+	s := z.Struct(z.Schema{"name": z.String().Required()})
+	noPanic(t, "request without a body", func() {
+		req, _ := http.NewRequest("POST", "http://x/y", nil)
+		req.Header.Set("Content-Type", "application/json")
+		var d D
+		errs := s.Parse(zhttp.Request(req), &d)
+		if len(errs["$root"]) != 1 || errs["$root"][0].Code != "invalid_json" {
+			t.Fatalf("issues %v (want one invalid_json)", errs)
+		}
+	})
+}
